@@ -37,7 +37,7 @@ class Resolver:
         self.ids = b.node_ids()
         self.site_of_id = {v: k for k, v in self.ids.items()}
         self.tags: Dict[str, List[str]] = {}
-        for s in P["body"]:
+        for s in (x for x in P["body"] if x["k"] == "call"):
             for t in [s["site"].lstrip(prog.MARK)] + list(s.get("tags") or []):
                 self.tags.setdefault(t, []).append(s["site"])
 
@@ -47,8 +47,8 @@ class Resolver:
         if form == "node":
             return [alias["site"]]
         if form == "fn":
-            fn = [s for s in self.P["body"] if s["site"] == alias["site"]][0]["fn"]
-            first = [s["site"] for s in self.P["body"] if s["fn"] == fn][0]
+            fn = [s for s in self.P["body"] if s.get("site") == alias["site"]][0]["fn"]
+            first = [s["site"] for s in self.P["body"] if s.get("fn") == fn][0]
             return [first]
         if form == "id":
             name = self.ids[alias["site"]]
@@ -67,7 +67,7 @@ class Resolver:
         if form == "node":
             return self.b.dag.get_node_by_id(self.ids[alias["site"]])
         if form == "fn":
-            fn = [s for s in self.P["body"] if s["site"] == alias["site"]][0]["fn"]
+            fn = [s for s in self.P["body"] if s.get("site") == alias["site"]][0]["fn"]
             return self.b.xns[fn]
         if form == "id":
             return self.ids[alias["site"]]
@@ -180,7 +180,11 @@ def one_selection(res: CaseResult, P: Dict[str, Any], M: Model, b: prog.Built, r
     if fn_nodes != want_graph:
         res.viol("graph-nodes", f"executor.graph has function nodes {sorted(fn_nodes)}, documented closure {sorted(want_graph)}" + tag)
     # run
-    R_ = prog.Ref(selected=ex_set, pre={s: M.pre_values[s] for s in pre})
+    # an independent nested DAG at the end of the describing function (its output is unused): its nodes are below no
+    # root and needed by no target - they run only when neither roots nor targets restrict the selection
+    nested_sites = [s_ for st_ in P["body"] if st_["k"] == "sub" for s_ in prog.sites_of(st_["prog"])]
+    run_nested = lists["R"] is None and lists["T"] is None
+    R_ = prog.Ref(selected=(ex_set | set(nested_sites)) if run_nested else ex_set, pre={s: M.pre_values[s] for s in pre})
     ref_val = prog.ref_run(P, [], R_)
     ex = sched.Exec("free")
     try:
@@ -197,7 +201,7 @@ def one_selection(res: CaseResult, P: Dict[str, Any], M: Model, b: prog.Built, r
         res.viol("entered", f"entered {sorted(got.items())}, closure minus computed setup {sorted(want.items())}" + tag)
     if val != ref_val:
         res.viol("value", f"returned {val!r}, reference {ref_val!r}" + tag)
-    M.done_setup |= {s for s in R_.executed if M.spec[s].get("setup")}
+    M.done_setup |= {s for s in R_.executed if s in M.spec and M.spec[s].get("setup")}
     return "valid-nested" if (0 < len(ex_set) < len(M.sites)) else "valid-trivial"
 
 
@@ -260,6 +264,8 @@ def run_case(case: Dict[str, Any]) -> CaseResult:
     if case.get("pre_setup"):
         res.cls("setup-run-before")
     res.cls("async" if case.get("async") else "sync")
+    if case.get("nested_extra"):
+        res.cls("nested-dag-with-same-function-names")
     res.note = {"classes": dict(Counter(classes))}
     return res
 
@@ -341,6 +347,19 @@ def cases(draw: Any, tier: str) -> Dict[str, Any]:
         if not (k == "R" and sp["name"] != "nope"):
             sel[k].append(sp)
     case["sel"] = sel
+    if draw(st.sampled_from([True, False, False, False])):
+        # a DAG called inside the describing function that uses functions of the SAME NAMES as the outer level: its
+        # nodes have ids like "Q.<name>", which only look like the outer ids
+        names = [f for f, sp in P["fns"].items() if not sp.get("setup") and not sp.get("debug")][:3]
+        if names:
+            qf = {f: {"kind": "term", "res": P["fns"][f].get("res", "thread"), **({"qual": P["fns"][f]["qual"]} if P["fns"][f].get("qual") else {})} for f in names}
+            qb = []
+            for j, f in enumerate(names):
+                qb.append({"k": "call", "fn": f, "site": gen.site(50 + j), "mark": True, "args": [["v", f"w{j - 1}"]] if j else [],
+                           "kwargs": {}, "active": None, "unpack": None, "tags": [], "out": f"w{j}"})
+            Q = {"name": "Q", "params": [], "fns": qf, "body": qb, "ret": ["x", ["v", f"w{len(names) - 1}"]]}
+            P["body"].append({"k": "sub", "prog": Q, "args": [], "active": None, "out": "wq"})
+            case["nested_extra"] = True
     return case
 
 
